@@ -28,9 +28,12 @@ import (
 )
 
 // ---------------------------------------------------------------------------------------
-// fixed environment: two organizations with two buckets each. Bucket names give rise to
-// virtual mappings: "db" -> (db, autogen, default), "db/rp1" -> (db, rp1),
+// environments. The FIXED environment (phases A-C): two organizations with two buckets each. Bucket
+// names give rise to virtual mappings: "db" -> (db, autogen, default), "db/rp1" -> (db, rp1),
 // "dbx/autogen" -> (dbx, autogen) (a virtual-only database without a default), "plain".
+// The NAMES environments (phase N): organization 1 owns "plain1" (id 10) plus an ordered selection of
+// the name alphabet (ids 11, 12, ... in creation order = the order the BucketService lists them);
+// several of these names parse to the SAME (database, retention policy) pair.
 // ---------------------------------------------------------------------------------------
 
 type bkt struct {
@@ -39,25 +42,68 @@ type bkt struct {
 	Name string
 }
 
-var buckets = []bkt{
-	{11, 1, "db"}, {12, 1, "db/rp1"},
-	{21, 2, "dbx/autogen"}, {22, 2, "plain"},
+type env struct {
+	tag     string   // "" for the fixed environment
+	names   []string // names environment: the enumerated bucket names of org 1, in creation order
+	buckets []bkt    // in the order FindBuckets lists them
+	rps     []string // retention policies probed by the resolution lookups
 }
 
 var (
 	orgs = []platform.ID{1, 2}
 	dbs  = []string{"db", "dbx"} // one name is a prefix of the other on purpose
 	rps  = []string{"autogen", "rp1", "rp2"}
+
+	fixedEnv = &env{
+		buckets: []bkt{{11, 1, "db"}, {12, 1, "db/rp1"}, {21, 2, "dbx/autogen"}, {22, 2, "plain"}},
+		rps:     rps,
+	}
+
+	// the bucket-name alphabet of phase N: "db" and "db/autogen" parse to (db, autogen), "dbx" and
+	// "dbx/autogen" to (dbx, autogen); "db/rp1" to (db, rp1); "db/autogen/x" has two slashes (the
+	// repo's parser cuts at the first one: (db, "autogen/x")); "db/rp1/x" likewise.
+	nameAlphabetQuick    = []string{"db", "db/autogen", "db/rp1", "dbx", "dbx/autogen", "db/autogen/x"}
+	nameAlphabetThorough = []string{"db", "db/autogen", "db/rp1", "dbx", "dbx/autogen", "db/autogen/x", "db/rp1/x"}
 )
 
-func orgBuckets(org platform.ID) []bkt {
+func namesEnv(names []string) *env {
+	e := &env{tag: "names=" + strings.Join(names, ","), names: append([]string{}, names...)}
+	e.buckets = append(e.buckets, bkt{10, 1, "plain1"})
+	for i, n := range names {
+		e.buckets = append(e.buckets, bkt{platform.ID(11 + i), 1, n})
+	}
+	e.buckets = append(e.buckets, bkt{21, 2, "dbx/autogen"}, bkt{22, 2, "plain"})
+	e.rps = append([]string{}, rps...)
+	for _, b := range e.buckets {
+		_, rp := virtualOf(b.Name)
+		known := false
+		for _, r := range e.rps {
+			known = known || r == rp
+		}
+		if !known {
+			e.rps = append(e.rps, rp)
+		}
+	}
+	return e
+}
+
+func (e *env) orgBuckets(org platform.ID) []bkt {
 	var out []bkt
-	for _, b := range buckets {
+	for _, b := range e.buckets {
 		if b.Org == org {
 			out = append(out, b)
 		}
 	}
 	return out
+}
+
+func (e *env) bucket(id uint64) *bkt {
+	for i := range e.buckets {
+		if uint64(e.buckets[i].ID) == id {
+			return &e.buckets[i]
+		}
+	}
+	return nil
 }
 
 // virtualOf: the statement's "virtual mappings derived from bucket names": name "a/b" -> (a,b);
@@ -71,10 +117,11 @@ func virtualOf(name string) (db, rp string) {
 
 type bucketSvc struct {
 	influxdb.BucketService // unimplemented methods: nil (never called)
+	e                      *env
 }
 
-func (bucketSvc) FindBucketByID(ctx context.Context, id platform.ID) (*influxdb.Bucket, error) {
-	for _, b := range buckets {
+func (s bucketSvc) FindBucketByID(ctx context.Context, id platform.ID) (*influxdb.Bucket, error) {
+	for _, b := range s.e.buckets {
 		if b.ID == id {
 			return &influxdb.Bucket{ID: b.ID, OrgID: b.Org, Name: b.Name}, nil
 		}
@@ -82,9 +129,9 @@ func (bucketSvc) FindBucketByID(ctx context.Context, id platform.ID) (*influxdb.
 	return nil, fmt.Errorf("bucket not found")
 }
 
-func (bucketSvc) FindBuckets(ctx context.Context, f influxdb.BucketFilter, opt ...influxdb.FindOptions) ([]*influxdb.Bucket, int, error) {
+func (s bucketSvc) FindBuckets(ctx context.Context, f influxdb.BucketFilter, opt ...influxdb.FindOptions) ([]*influxdb.Bucket, int, error) {
 	var out []*influxdb.Bucket
-	for _, b := range buckets {
+	for _, b := range s.e.buckets {
 		if f.ID != nil && *f.ID != b.ID {
 			continue
 		}
@@ -145,18 +192,19 @@ func histString(h []Op) string {
 var kvBuckets = []string{"dbrpv1", "dbrpbyorganddbindexv1", "dbrpbyorgv1", "dbrpdefaultv1"} // migrations 0004 and 0012
 
 type world struct {
+	e   *env
 	st  *inmem.KVStore
 	svc influxdb.DBRPMappingService
 }
 
-func newWorld() *world {
+func newWorld(e *env) *world {
 	st := inmem.NewKVStore()
 	for _, b := range kvBuckets {
 		if err := st.CreateBucket(context.Background(), []byte(b)); err != nil {
 			panic(err)
 		}
 	}
-	return &world{st: st, svc: dbrp.NewService(context.Background(), bucketSvc{}, st)}
+	return &world{e: e, st: st, svc: dbrp.NewService(context.Background(), bucketSvc{e: e}, st)}
 }
 
 func (w *world) apply(o Op) (res string) {
@@ -165,13 +213,13 @@ func (w *world) apply(o Op) (res string) {
 	p, d := vlib.Guard(func() {
 		switch o.K {
 		case "create":
-			ob := orgBuckets(platform.ID(o.Org))
+			ob := w.e.orgBuckets(platform.ID(o.Org))
 			err = w.svc.Create(ctx, &influxdb.DBRPMapping{ID: platform.ID(slotBase + o.Slot), OrganizationID: platform.ID(o.Org),
 				Database: o.DB, RetentionPolicy: o.RP, Default: o.Def, BucketID: ob[o.Bkt].ID})
 		case "update":
 			// the caller only names id, org, new rp and default flag; the service keeps db and bucket
 			err = w.svc.Update(ctx, &influxdb.DBRPMapping{ID: platform.ID(slotBase + o.Slot), OrganizationID: platform.ID(o.Org),
-				Database: "db", RetentionPolicy: o.RP, Default: o.Def, BucketID: orgBuckets(platform.ID(o.Org))[0].ID})
+				Database: "db", RetentionPolicy: o.RP, Default: o.Def, BucketID: w.e.orgBuckets(platform.ID(o.Org))[0].ID})
 		case "delete":
 			err = w.svc.Delete(ctx, platform.ID(o.Org), platform.ID(slotBase+o.Slot))
 		case "updateV":
@@ -250,6 +298,7 @@ type mm struct {
 }
 
 type model struct {
+	e       *env
 	M       map[int]mm // slot -> mapping
 	Tainted bool       // an update/delete aimed at a virtual mapping id was accepted: the statement
 	// does not say what that means for the set of stored mappings; from then on only the statement's
@@ -284,7 +333,7 @@ func (m *model) applicable(o Op) bool {
 func (m *model) step(o Op) {
 	switch o.K {
 	case "create":
-		m.M[o.Slot] = mm{o.Org, o.DB, o.RP, uint64(orgBuckets(platform.ID(o.Org))[o.Bkt].ID)}
+		m.M[o.Slot] = mm{o.Org, o.DB, o.RP, uint64(m.e.orgBuckets(platform.ID(o.Org))[o.Bkt].ID)}
 	case "update":
 		x := m.M[o.Slot]
 		x.RP = o.RP
@@ -345,6 +394,24 @@ func sortedEnts(l []ent) []ent {
 	return l
 }
 
+func composition(es []ent) string {
+	st, vi := 0, 0
+	for _, e := range es {
+		if e.Virtual {
+			vi++
+		} else {
+			st++
+		}
+	}
+	switch {
+	case st > 0 && vi > 0:
+		return "stored+virtual"
+	case vi > 0:
+		return "virtual+virtual"
+	}
+	return "stored+stored"
+}
+
 // check inspects the complete observable surface; returns findings and a deterministic rendering.
 func (w *world) check(m *model) (fs []finding, render string, classes []string) {
 	ctx := context.Background()
@@ -371,6 +438,58 @@ func (w *world) check(m *model) (fs []finding, render string, classes []string) 
 		}
 		return out, firstIdx, true
 	}
+	// clause 1 on one lookup result: every (org, db, rp) appears with at most one bucket (whichever of
+	// several candidates wins); every returned mapping points at an existing bucket of its organization.
+	twoBuckets := func(kind, lookup string, es []ent) (bad map[string]bool) {
+		bad = map[string]bool{}
+		pair := map[string][]ent{}
+		var pks []string
+		for _, e := range es {
+			k := fmt.Sprintf("org %d (%s/%s)", e.Org, e.DB, e.RP)
+			if pair[k] == nil {
+				pks = append(pks, k)
+			}
+			pair[k] = append(pair[k], e)
+			if b := w.e.bucket(e.Bucket); b == nil || uint64(b.Org) != e.Org {
+				add("returned-mapping/bucket-missing-or-of-other-org/"+lookup, fmt.Sprintf("virtual=%v", e.Virtual), fmt.Sprintf("%s returned %v of org %d whose bucket %d does not exist in that organization", lookup, e, e.Org, e.Bucket))
+			}
+		}
+		sort.Strings(pks)
+		for _, k := range pks {
+			g := pair[k]
+			bs := map[uint64]bool{}
+			for _, e := range g {
+				bs[e.Bucket] = true
+			}
+			if len(bs) > 1 {
+				bad[k] = true
+				add(kind+"/"+lookup, composition(g), fmt.Sprintf("%s: %s comes with %d different buckets: %v", lookup, k, len(bs), g))
+			} else if len(g) > 1 {
+				cls["same-pair-same-bucket-returned-twice:"+composition(g)] = true
+			}
+		}
+		return bad
+	}
+	atMostOneDefault := func(lookup string, es []ent) {
+		n := map[string]int{}
+		var ks []string
+		for _, e := range es {
+			if e.Default {
+				k := fmt.Sprintf("org %d db %s", e.Org, e.DB)
+				if n[k] == 0 {
+					ks = append(ks, k)
+				}
+				n[k]++
+			}
+		}
+		sort.Strings(ks)
+		for _, k := range ks {
+			if n[k] > 1 {
+				add("default/more-than-one/"+lookup, "", fmt.Sprintf("%s: %s has %d default mappings: %v", lookup, k, n[k], es))
+			}
+		}
+	}
+	perOrg := map[uint64][]ent{}
 	for _, org := range orgs {
 		org := org
 		o64 := uint64(org)
@@ -379,6 +498,7 @@ func (w *world) check(m *model) (fs []finding, render string, classes []string) 
 			continue
 		}
 		L = sortedEnts(L)
+		perOrg[o64] = L
 		fmt.Fprintf(&rb, "org%d list=%v", o64, L)
 
 		// model equality for physical mappings (CRUD takes effect, nothing else changes)
@@ -421,7 +541,6 @@ func (w *world) check(m *model) (fs []finding, render string, classes []string) 
 			total    int
 		}
 		info := map[string]*dbinfo{}
-		pair := map[string][]ent{}
 		for _, e := range L {
 			if info[e.DB] == nil {
 				info[e.DB] = &dbinfo{}
@@ -434,26 +553,8 @@ func (w *world) check(m *model) (fs []finding, render string, classes []string) 
 			if e.Default {
 				di.defaults = append(di.defaults, e)
 			}
-			pair[e.DB+"/"+e.RP] = append(pair[e.DB+"/"+e.RP], e)
 		}
-		var pks []string
-		for k := range pair {
-			pks = append(pks, k)
-		}
-		sort.Strings(pks)
-		for _, k := range pks {
-			es := pair[k]
-			bs := map[uint64]bool{}
-			for _, e := range es {
-				bs[e.Bucket] = true
-			}
-			if len(bs) > 1 {
-				add("pair-listed-with-two-buckets/FindMany{org}", fmt.Sprintf("virtual-involved=%v", es[0].Virtual || es[len(es)-1].Virtual),
-					fmt.Sprintf("org %d: (%s) is listed with %d different buckets: %v", o64, k, len(bs), es))
-			} else if len(es) > 1 {
-				cls["same-pair-same-bucket-listed-twice"] = true
-			}
-		}
+		twoBuckets("pair-listed-with-two-buckets", "FindMany{org}", L)
 		var dks []string
 		for k := range info {
 			dks = append(dks, k)
@@ -482,6 +583,48 @@ func (w *world) check(m *model) (fs []finding, render string, classes []string) 
 			}
 		}
 
+		// bucket-name collisions of this organization: which of the candidates of one pair is listed
+		cand := map[string][]bkt{}
+		var cks []string
+		for _, b := range w.e.orgBuckets(org) {
+			d, r := virtualOf(b.Name)
+			k := d + "/" + r
+			if cand[k] == nil {
+				cks = append(cks, k)
+			}
+			cand[k] = append(cand[k], b)
+		}
+		for _, k := range cks {
+			if len(cand[k]) < 2 {
+				continue
+			}
+			stored, winner := false, -1
+			for _, e := range L {
+				if e.DB+"/"+e.RP != k {
+					continue
+				}
+				if !e.Virtual {
+					stored = true
+					continue
+				}
+				for i, b := range cand[k] {
+					if uint64(b.ID) == e.Bucket && winner < 0 {
+						winner = i
+					}
+				}
+			}
+			switch {
+			case stored:
+				cls["colliding-bucket-names:stored-mapping-for-the-pair"] = true
+			case winner == 0:
+				cls["colliding-bucket-names:first-listed-candidate-wins"] = true
+			case winner > 0:
+				cls["colliding-bucket-names:later-listed-candidate-wins"] = true
+			default:
+				cls["colliding-bucket-names:no-candidate-listed"] = true
+			}
+		}
+
 		for _, db := range dbs {
 			db := db
 			// the database-scoped listing must agree with the org-scoped one
@@ -495,61 +638,35 @@ func (w *world) check(m *model) (fs []finding, render string, classes []string) 
 				}
 				LD = sortedEnts(LD)
 				if fmt.Sprint(LD) != fmt.Sprint(sub) {
-					// not demanded by the statement: visibility only, except for the default count
+					// not demanded by the statement: visibility only, except for the default count and clause 1
 					cls["db-scoped-listing-differs-from-org-scoped"] = true
 				}
-				nd := 0
-				for _, e := range LD {
-					if e.Default {
-						nd++
-					}
-				}
-				if nd > 1 {
-					add("default/more-than-one/FindMany{org,db}", "", fmt.Sprintf("org %d db %s: %v", o64, db, LD))
-				}
+				twoBuckets("pair-listed-with-two-buckets", "FindMany{org,db}", LD)
+				atMostOneDefault("FindMany{org,db}", LD)
 				fmt.Fprintf(&rb, " %s=%v", db, LD)
 			}
 
-			// clause 3: lookup with empty rp (what the v1 write/query path does) returns the default
-			tr := true
-			D, first, ok := find(influxdb.DBRPMappingFilter{OrgID: &org, Database: &db, Default: &tr})
-			if ok {
-				var defs []ent
-				if di := info[db]; di != nil {
-					defs = di.defaults
-				}
-				fmt.Fprintf(&rb, " %s/<empty>=%v", db, D)
-				switch {
-				case len(defs) == 1 && len(D) == 0:
-					add("empty-rp-lookup/no-result", fmt.Sprintf("default-virtual=%v", defs[0].Virtual), fmt.Sprintf("org %d db %s: default is %v but the lookup with empty rp finds nothing", o64, db, defs[0]))
-				case len(defs) == 1 && (first.ID != defs[0].ID || first.Bucket != defs[0].Bucket || first.DB != defs[0].DB):
-					add("empty-rp-lookup/not-the-default", fmt.Sprintf("default-virtual=%v,result-virtual=%v", defs[0].Virtual, first.Virtual), fmt.Sprintf("org %d db %s: default is %v but the lookup with empty rp returns %v", o64, db, defs[0], D))
-				case len(defs) == 1 && len(D) > 1:
-					add("empty-rp-lookup/several-results", "", fmt.Sprintf("org %d db %s: lookup with empty rp returns %v", o64, db, D))
-				case len(defs) == 0 && len(D) > 0:
-					add("empty-rp-lookup/result-without-default", "", fmt.Sprintf("org %d db %s: no mapping is flagged default in %v but the lookup with empty rp returns %v", o64, db, L, D))
-				}
-				if len(D) == 1 {
-					cls["empty-rp-lookup:found"] = true
-				} else if len(D) == 0 {
-					cls["empty-rp-lookup:none"] = true
-				}
-			}
-
 			// clause 1 on the resolution path: FindMany{org, db, rp}
-			for _, rp := range rps {
+			resolved := map[string][]ent{}
+			for _, rp := range w.e.rps {
 				rp := rp
 				R, _, ok := find(influxdb.DBRPMappingFilter{OrgID: &org, Database: &db, RetentionPolicy: &rp})
 				if !ok {
 					continue
 				}
+				resolved[rp] = R
+				if len(R) > 0 {
+					fmt.Fprintf(&rb, " %s/%s=%v", db, rp, R)
+				}
+				if bad := twoBuckets("pair-resolves-to-two-buckets", "FindMany{org,db,rp}", R); len(bad) > 0 {
+					continue
+				}
 				bs := map[uint64]bool{}
 				for _, e := range R {
 					bs[e.Bucket] = true
-				}
-				if len(bs) > 1 {
-					add("pair-resolves-to-two-buckets/FindMany{org,db,rp}", "", fmt.Sprintf("org %d (%s/%s) resolves to %v", o64, db, rp, R))
-					continue
+					if e.Org != o64 || e.DB != db || e.RP != rp {
+						add("resolution/result-of-another-pair", "", fmt.Sprintf("org %d: the lookup of (%s/%s) returned %v", o64, db, rp, R))
+					}
 				}
 				if len(R) > 1 {
 					cls["resolution-lists-same-bucket-twice"] = true
@@ -565,7 +682,7 @@ func (w *world) check(m *model) (fs []finding, render string, classes []string) 
 					}
 				}
 				virt := map[uint64]bool{}
-				for _, b := range orgBuckets(org) {
+				for _, b := range w.e.orgBuckets(org) {
 					if d, r := virtualOf(b.Name); d == db && r == rp {
 						virt[uint64(b.ID)] = true
 					}
@@ -579,14 +696,56 @@ func (w *world) check(m *model) (fs []finding, render string, classes []string) 
 					add("resolution/unmapped-pair-resolves", "", fmt.Sprintf("org %d: nothing maps %s/%s but it resolves to %v", o64, db, rp, R))
 				}
 				switch {
+				case phys != nil && len(virt) > 1:
+					cls["resolve:stored-shadows-several-virtual"] = true
 				case phys != nil && len(virt) > 0:
 					cls["resolve:stored-shadows-virtual"] = true
 				case phys != nil:
 					cls["resolve:stored"] = true
+				case len(R) > 0 && len(virt) > 1:
+					cls["resolve:one-of-several-virtual"] = true
 				case len(R) > 0:
 					cls["resolve:virtual"] = true
 				default:
 					cls["resolve:nothing"] = true
+				}
+			}
+
+			// clause 3: lookup with empty rp (what the v1 write/query path does) returns the default
+			tr := true
+			D, first, ok := find(influxdb.DBRPMappingFilter{OrgID: &org, Database: &db, Default: &tr})
+			if ok {
+				var defs []ent
+				if di := info[db]; di != nil {
+					defs = di.defaults
+				}
+				fmt.Fprintf(&rb, " %s/<empty>=%v", db, D)
+				twoBuckets("pair-listed-with-two-buckets", "FindMany{org,db,default}", D)
+				// clause 1 across the two lookups of the v1 path: the mapping returned for the empty rp names a
+				// pair (db, rp); the lookup of that very pair must not lead to another bucket
+				elsewhere := false
+				if len(D) > 0 {
+					for _, e := range resolved[first.RP] {
+						if e.Bucket != first.Bucket {
+							elsewhere = true
+						}
+					}
+				}
+				switch {
+				case len(defs) == 1 && len(D) == 0:
+					add("empty-rp-lookup/no-result", fmt.Sprintf("default-virtual=%v", defs[0].Virtual), fmt.Sprintf("org %d db %s: default is %v but the lookup with empty rp finds nothing", o64, db, defs[0]))
+				case len(defs) == 1 && (first.ID != defs[0].ID || first.Bucket != defs[0].Bucket || first.DB != defs[0].DB):
+					add("empty-rp-lookup/not-the-default", fmt.Sprintf("default-virtual=%v,result-virtual=%v", defs[0].Virtual, first.Virtual), fmt.Sprintf("org %d db %s: default is %v but the lookup with empty rp returns %v", o64, db, defs[0], D))
+				case len(defs) == 1 && len(D) > 1:
+					add("empty-rp-lookup/several-results", "", fmt.Sprintf("org %d db %s: lookup with empty rp returns %v", o64, db, D))
+				case len(defs) == 0 && len(D) > 0:
+					add("empty-rp-lookup/result-without-default", fmt.Sprintf("result-virtual=%v,its-pair-resolves-to-another-bucket=%v", first.Virtual, elsewhere),
+						fmt.Sprintf("org %d db %s: no mapping is flagged default in %v but the lookup with empty rp returns %v (the lookup of (%s/%s) returns %v)", o64, db, L, D, db, first.RP, resolved[first.RP]))
+				}
+				if len(D) == 1 {
+					cls["empty-rp-lookup:found"] = true
+				} else if len(D) == 0 {
+					cls["empty-rp-lookup:none"] = true
 				}
 			}
 		}
@@ -632,6 +791,33 @@ func (w *world) check(m *model) (fs []finding, render string, classes []string) 
 		}
 		rb.WriteString(" | ")
 	}
+
+	// the listing over all organizations (no filter at all): the same at-most clauses per (org, db, rp)
+	// and (org, db). Which virtual mappings it shows is not prescribed (recorded as an outcome class).
+	// Not issued once the model is tainted (a record without index entries is then stored).
+	if !m.Tainted {
+		G, _, ok := find(influxdb.DBRPMappingFilter{})
+		if ok {
+			fmt.Fprintf(&rb, "all-orgs list=%v", G)
+			twoBuckets("pair-listed-with-two-buckets", "FindMany{}", G)
+			atMostOneDefault("FindMany{}", G)
+			inG := map[string]bool{}
+			for _, e := range G {
+				inG[fmt.Sprintf("%d|%s|%s|%d", e.Org, e.DB, e.RP, e.Bucket)] = true
+			}
+			for _, org := range orgs {
+				for _, e := range perOrg[uint64(org)] {
+					if !inG[fmt.Sprintf("%d|%s|%s|%d", e.Org, e.DB, e.RP, e.Bucket)] {
+						if e.Virtual {
+							cls["all-orgs-listing-omits-a-virtual-mapping-listed-per-org"] = true
+						} else {
+							add("listing/mapping-missing/FindMany{}", "", fmt.Sprintf("stored mapping %v of org %d is listed by FindMany{org} but not by FindMany{}: %v", e, e.Org, G))
+						}
+					}
+				}
+			}
+		}
+	}
 	for k := range cls {
 		classes = append(classes, k)
 	}
@@ -644,7 +830,33 @@ func (w *world) check(m *model) (fs []finding, render string, classes []string) 
 // ---------------------------------------------------------------------------------------
 
 type Case struct {
-	History []Op `json:"history"` // the last op is the one judged
+	// names environment (phase N): organization 1 owns 'plain1' (id 10) and these buckets, created and
+	// listed in this order with ids 11, 12, ...; NamesEnv=false: the fixed environment of phases A-C
+	NamesEnv bool     `json:"names_env,omitempty"`
+	Names    []string `json:"org1_bucket_names,omitempty"`
+	History  []Op     `json:"history"` // the last op is the one judged; empty (names environment only): the initial state is judged
+}
+
+func (cs Case) env() *env {
+	if cs.NamesEnv {
+		return namesEnv(cs.Names)
+	}
+	return fixedEnv
+}
+
+func (cs Case) String() string {
+	if cs.NamesEnv {
+		return fmt.Sprintf("org 1 owns buckets plain1(10) %s; history {%s}", bucketsString(cs.Names), histString(cs.History))
+	}
+	return fmt.Sprintf("history {%s}", histString(cs.History))
+}
+
+func bucketsString(names []string) string {
+	var p []string
+	for i, n := range names {
+		p = append(p, fmt.Sprintf("%q(%d)", n, 11+i))
+	}
+	return "[" + strings.Join(p, " ") + "]"
 }
 
 type verdict struct {
@@ -667,7 +879,7 @@ type surface struct {
 }
 
 var (
-	surfaceCache sync.Map // (state key, model key) -> surface verdict; only used by the explorer
+	surfaceCache = &sync.Map{} // (env, state key, model key) -> surface verdict; only used by the explorer
 	useCache     bool
 )
 
@@ -700,9 +912,32 @@ func isV(o Op) bool { return o.K == "updateV" || o.K == "deleteV" }
 func runCase(cs Case) verdict { return runCase1(cs, false) }
 
 func runCase1(cs Case, withPre bool) verdict {
-	w := newWorld()
-	m := &model{M: map[int]mm{}}
+	e := cs.env()
+	w := newWorld(e)
+	m := &model{e: e, M: map[int]mm{}}
 	n := len(cs.History)
+	if n == 0 {
+		// the initial state of an environment: no stored mapping, only what the bucket names give rise to
+		var v verdict
+		v.res, v.app = "ok", true
+		v.key = w.dump()
+		var cf []finding
+		cf, v.render, v.classes = w.check(m)
+		if useCache {
+			surfaceCache.Store(e.tag+"#"+v.key+"#"+m.key(), surface{cf, append([]string{}, v.classes...)})
+		}
+		v.nfind = len(cf)
+		seen := map[string]bool{}
+		for _, f := range cf {
+			if seen[f.kind+"|"+f.feat] {
+				continue
+			}
+			seen[f.kind+"|"+f.feat] = true
+			v.sigs = append(v.sigs, vlib.JoinSig(f.kind, f.feat))
+			v.texts = append(v.texts, f.text)
+		}
+		return v
+	}
 	var preF []finding
 	for i, o := range cs.History {
 		last := i == n-1
@@ -710,7 +945,7 @@ func runCase1(cs Case, withPre bool) verdict {
 			if withPre || !useCache {
 				preF, _, _ = w.check(m)
 			} else {
-				pk := w.dump() + "#" + m.key()
+				pk := e.tag + "#" + w.dump() + "#" + m.key()
 				if cached, ok := surfaceCache.Load(pk); ok {
 					preF = cached.(surface).fs
 				} else {
@@ -757,7 +992,7 @@ func runCase1(cs Case, withPre bool) verdict {
 		var cf []finding
 		var render string
 		var classes []string
-		ck := v.key + "#" + m.key()
+		ck := e.tag + "#" + v.key + "#" + m.key()
 		if cached, ok := surfaceCache.Load(ck); ok && !withPre && useCache {
 			// the surface is a function of the stored state; its verdict a function of (state, model)
 			sf := cached.(surface)
@@ -793,6 +1028,7 @@ func runCase1(cs Case, withPre bool) verdict {
 			if pre[f.kind+"|"+f.feat] {
 				continue
 			}
+			pre[f.kind+"|"+f.feat] = true // one report per class and transition
 			if m.Tainted {
 				// one root cause (a stored record for a virtual mapping's id): one class per violated clause
 				v.sigs = append(v.sigs, vlib.JoinSig(f.kind, "after-accepted-update-or-delete-of-a-virtual-mapping-id"))
@@ -818,22 +1054,38 @@ type bounds struct {
 	bothBkts bool
 	vIDs     []uint64 // ids of virtual mappings that update/delete may be aimed at
 	vRPs     []string
+	// phase N
+	e       *env          // nil: the fixed environment
+	opOrgs  []platform.ID // organizations the ops are issued for (nil: both)
+	serial  bool          // explore on the calling goroutine (phase N runs one BFS per environment in parallel)
+	collide bool          // the environment has two bucket names parsing to one (db, rp) pair
 }
 
 func opsFor(b bounds) []Op {
 	var ops []Op
+	oo := b.opOrgs
+	if oo == nil {
+		oo = orgs
+	}
+	e := b.e
+	if e == nil {
+		e = fixedEnv
+	}
 	for s := 1; s <= b.slots; s++ {
-		for _, org := range orgs {
+		for _, org := range oo {
 			for _, db := range dbs {
 				for _, rp := range rps {
 					nb := 1
-					if b.bothBkts {
+					if b.bothBkts && len(e.orgBuckets(org)) > 1 {
 						nb = 2
 					}
 					for bi := 0; bi < nb; bi++ {
 						bidx := bi
 						if !b.bothBkts {
 							bidx = (s + 1) % 2
+							if bidx >= len(e.orgBuckets(org)) {
+								bidx = 0
+							}
 						}
 						for _, def := range []bool{false, true} {
 							ops = append(ops, Op{K: "create", Slot: s, Org: uint64(org), DB: db, RP: rp, Bkt: bidx, Def: def})
@@ -842,7 +1094,7 @@ func opsFor(b bounds) []Op {
 				}
 			}
 		}
-		for _, org := range orgs {
+		for _, org := range oo {
 			for _, rp := range rps {
 				for _, def := range []bool{false, true} {
 					ops = append(ops, Op{K: "update", Slot: s, Org: uint64(org), RP: rp, Def: def})
@@ -851,7 +1103,7 @@ func opsFor(b bounds) []Op {
 			ops = append(ops, Op{K: "delete", Slot: s, Org: uint64(org)})
 		}
 	}
-	for _, bk := range buckets {
+	for _, bk := range e.buckets {
 		for _, vid := range b.vIDs {
 			if uint64(bk.ID) != vid {
 				continue
@@ -871,18 +1123,131 @@ func opsFor(b bounds) []Op {
 // BFS
 // ---------------------------------------------------------------------------------------
 
+// sink: what an exploration reports. *vlib.Ctx directly (phases A-C) or a recorder that is flushed
+// into the Ctx in environment order (phase N), so that reports do not depend on goroutine timing.
+type sink interface {
+	Eval(int64)
+	Trace(int64)
+	Transition(int64)
+	NontrivialN(int64)
+	Outcome(string)
+	Extra(string, int64)
+	State(string)
+	Violation(sig, summary string, cas any)
+	WantSample() bool
+	Sample(any)
+	Expired() bool
+	Cap(string)
+	Logf(string, ...any)
+}
+
+type viol struct {
+	sig, sum string
+	cs       any
+}
+
+type rec struct {
+	c                   *vlib.Ctx
+	evals, trans, nontr int64
+	outcomes, extra     map[string]int64
+	states              []string
+	viols               []viol
+	samples             []any
+	capped              string
+	stop                func() bool
+}
+
+func newRec(c *vlib.Ctx, stop func() bool) *rec {
+	return &rec{c: c, outcomes: map[string]int64{}, extra: map[string]int64{}, stop: stop}
+}
+func (r *rec) Eval(n int64)            { r.evals += n }
+func (r *rec) Trace(n int64)           {}
+func (r *rec) Transition(n int64)      { r.trans += n }
+func (r *rec) NontrivialN(n int64)     { r.nontr += n }
+func (r *rec) Outcome(s string)        { r.outcomes[s]++ }
+func (r *rec) Extra(k string, n int64) { r.extra[k] += n }
+func (r *rec) State(k string)          { r.states = append(r.states, k) }
+func (r *rec) Violation(sig, sum string, cs any) {
+	r.viols = append(r.viols, viol{sig, sum, cs})
+}
+func (r *rec) WantSample() bool    { return len(r.samples) < 1 }
+func (r *rec) Sample(v any)        { r.samples = append(r.samples, v) }
+func (r *rec) Expired() bool       { return r.stop() }
+func (r *rec) Cap(s string)        { r.capped = s }
+func (r *rec) Logf(string, ...any) {}
+
+func (r *rec) flush(c *vlib.Ctx) {
+	c.Eval(r.evals)
+	c.Trace(r.evals)
+	c.Transition(r.trans)
+	c.NontrivialN(r.nontr)
+	var ks []string
+	for k := range r.outcomes {
+		ks = append(ks, k)
+	}
+	sort.Strings(ks)
+	for _, k := range ks {
+		c.OutcomeN(k, r.outcomes[k])
+	}
+	ks = ks[:0]
+	for k := range r.extra {
+		ks = append(ks, k)
+	}
+	sort.Strings(ks)
+	for _, k := range ks {
+		c.Extra(k, r.extra[k])
+	}
+	for _, s := range r.states {
+		c.State(s)
+	}
+	for _, v := range r.viols {
+		c.Violation(v.sig, v.sum, v.cs)
+	}
+	for _, s := range r.samples {
+		if c.WantSample() {
+			c.Sample(s)
+		}
+	}
+}
+
 type tres struct {
 	op Op
 	v  verdict
 }
 
-func bfs(c *vlib.Ctx, b bounds) {
+// bfs explores one environment to closure; returns false if the budget ended it early.
+func bfs(c sink, b bounds) bool {
 	useCache = true
-	w0 := newWorld()
+	e := b.e
+	if e == nil {
+		e = fixedEnv
+	}
+	mk := func(h []Op) Case { return Case{NamesEnv: e.tag != "", Names: e.names, History: h} }
+	w0 := newWorld(e)
 	k0 := w0.dump()
 	seen := map[string]bool{k0: true}
-	c.State(k0)
-	c.Trace(1)
+	c.State(e.tag + "#" + k0)
+	if e.tag == "" {
+		c.Trace(1)
+	} else {
+		// phase N judges the initial state as an execution of its own
+		v := runCase(mk(nil))
+		c.Eval(1)
+		c.Trace(1)
+		if len(e.names) > 0 {
+			c.NontrivialN(1)
+		}
+		c.Outcome("initial-state-of-a-bucket-name-environment")
+		for _, cl := range v.classes {
+			c.Outcome("surface:" + cl)
+		}
+		for j, sg := range v.sigs {
+			c.Violation(sg, fmt.Sprintf("%s: %s", mk(nil), v.texts[j]), mk(nil))
+		}
+		if c.WantSample() && b.collide {
+			c.Sample(map[string]any{"case": mk(nil).String(), "surface": v.render})
+		}
+	}
 	type node struct {
 		hist []Op
 		occ  uint32
@@ -890,35 +1255,49 @@ func bfs(c *vlib.Ctx, b bounds) {
 	frontier := []node{{}}
 	depth := 0
 	par := runtime.GOMAXPROCS(0)
+	if b.serial {
+		par = 1
+	}
 	ops := opsFor(b)
-	c.Extra("ops_per_state_"+b.name, int64(len(ops)))
+	if !b.serial {
+		c.Extra("ops_per_state_"+b.name, int64(len(ops)))
+	}
 	for len(frontier) > 0 {
 		var next []node
 		for lo := 0; lo < len(frontier); lo += 4 * par {
 			if c.Expired() {
 				c.Cap(fmt.Sprintf("budget hit in phase %s at BFS depth %d; all shallower levels complete", b.name, depth))
-				return
+				return false
 			}
 			hi := min(lo+4*par, len(frontier))
 			results := make([][]tres, hi-lo)
-			var wg sync.WaitGroup
-			for i := lo; i < hi; i++ {
-				wg.Add(1)
-				go func(i int) {
-					defer wg.Done()
-					hist := frontier[i].hist
-					var out []tres
-					for _, o := range ops {
-						if o.K == "create" && frontier[i].occ&(1<<uint(o.Slot)) != 0 {
-							continue // ids are never chosen by API callers: a create always gets an unused id
-						}
-						h := append(append([]Op{}, hist...), o)
-						out = append(out, tres{o, runCase(Case{History: h})})
+			expand := func(i int) {
+				hist := frontier[i].hist
+				var out []tres
+				for _, o := range ops {
+					if o.K == "create" && frontier[i].occ&(1<<uint(o.Slot)) != 0 {
+						continue // ids are never chosen by API callers: a create always gets an unused id
 					}
-					results[i-lo] = out
-				}(i)
+					h := append(append([]Op{}, hist...), o)
+					out = append(out, tres{o, runCase(mk(h))})
+				}
+				results[i-lo] = out
 			}
-			wg.Wait()
+			if b.serial {
+				for i := lo; i < hi; i++ {
+					expand(i)
+				}
+			} else {
+				var wg sync.WaitGroup
+				for i := lo; i < hi; i++ {
+					wg.Add(1)
+					go func(i int) {
+						defer wg.Done()
+						expand(i)
+					}(i)
+				}
+				wg.Wait()
+			}
 			// merge in deterministic order
 			for i := lo; i < hi; i++ {
 				for _, r := range results[i-lo] {
@@ -927,7 +1306,12 @@ func bfs(c *vlib.Ctx, b bounds) {
 					c.Trace(1)
 					c.Transition(1)
 					if r.v.app || (isV(r.op) && r.v.res == "ok") {
-						c.NontrivialN(1)
+						if e.tag == "" || len(e.names) > 0 {
+							c.NontrivialN(1)
+						}
+						if b.collide {
+							c.Extra("applicable_transitions_with_colliding_bucket_names", 1)
+						}
 					}
 					mode := "model"
 					if r.v.tainted {
@@ -938,14 +1322,14 @@ func bfs(c *vlib.Ctx, b bounds) {
 						c.Outcome("surface:" + cl)
 					}
 					for j, sg := range r.v.sigs {
-						c.Violation(sg, fmt.Sprintf("after history {%s}: %s", histString(h), r.v.texts[j]), Case{History: h})
+						c.Violation(sg, fmt.Sprintf("after %s: %s", mk(h), r.v.texts[j]), mk(h))
 					}
 					if !seen[r.v.key] {
 						seen[r.v.key] = true
-						c.State(r.v.key)
+						c.State(e.tag + "#" + r.v.key)
 						next = append(next, node{h, r.v.occ})
-						if c.WantSample() && len(h) >= 3 {
-							c.Sample(map[string]any{"history": histString(h), "surface": runCase1(Case{History: h}, true).render})
+						if c.WantSample() && len(h) >= 3 && e.tag == "" {
+							c.Sample(map[string]any{"history": histString(h), "surface": runCase1(mk(h), true).render})
 						}
 					}
 				}
@@ -955,25 +1339,128 @@ func bfs(c *vlib.Ctx, b bounds) {
 		depth++
 		c.Logf("phase %s depth %d: %d new states, %d total", b.name, depth, len(next), len(seen))
 	}
-	c.Extra("bfs_depth_"+b.name, int64(depth))
-	c.Extra("states_"+b.name, int64(len(seen)))
+	if !b.serial {
+		c.Extra("bfs_depth_"+b.name, int64(depth))
+		c.Extra("states_"+b.name, int64(len(seen)))
+	} else {
+		c.Extra("states_"+b.name, int64(len(seen)))
+	}
+	return true
+}
+
+// ---------------------------------------------------------------------------------------
+// phase N: the bucket-name dimension
+// ---------------------------------------------------------------------------------------
+
+// arrangements: every ordered selection of 0..k distinct names of the alphabet, smallest first.
+func arrangements(alpha []string, k int) [][]string {
+	out := [][]string{{}}
+	level := [][]string{{}}
+	for n := 1; n <= k; n++ {
+		var nl [][]string
+		for _, p := range level {
+			for _, a := range alpha {
+				used := false
+				for _, x := range p {
+					used = used || x == a
+				}
+				if !used {
+					nl = append(nl, append(append([]string{}, p...), a))
+				}
+			}
+		}
+		out = append(out, nl...)
+		level = nl
+	}
+	return out
+}
+
+func collides(names []string) bool {
+	seen := map[string]bool{}
+	for _, n := range names {
+		d, r := virtualOf(n)
+		if seen[d+"/"+r] {
+			return true
+		}
+		seen[d+"/"+r] = true
+	}
+	return false
+}
+
+type namesPlan struct {
+	alpha    []string
+	maxNames int
+	slots    func(names []string) int // size of the id pool explored in that environment
+	bothBkts bool
+}
+
+// phaseN: for every arrangement of bucket names a BFS to closure over the stored-mapping ops of org 1.
+func phaseN(c *vlib.Ctx, pl namesPlan) {
+	envs := arrangements(pl.alpha, pl.maxNames)
+	c.Extra("bucket_name_environments", int64(len(envs)))
+	par := runtime.GOMAXPROCS(0)
+	old := surfaceCache
+	defer func() { surfaceCache = old }()
+	surfaceCache = &sync.Map{}
+	for lo := 0; lo < len(envs); lo += 2 * par {
+		if c.Expired() {
+			c.Cap(fmt.Sprintf("budget hit in phase N after %d of %d bucket-name environments (ordered smallest first); each of those was explored to closure", lo, len(envs)))
+			return
+		}
+		hi := min(lo+2*par, len(envs))
+		recs := make([]*rec, hi-lo)
+		done := make([]bool, hi-lo)
+		sem := make(chan struct{}, par)
+		var wg sync.WaitGroup
+		for i := lo; i < hi; i++ {
+			wg.Add(1)
+			sem <- struct{}{}
+			go func(i int) {
+				defer wg.Done()
+				defer func() { <-sem }()
+				r := newRec(c, c.Expired)
+				recs[i-lo] = r
+				done[i-lo] = bfs(r, bounds{name: "N", slots: pl.slots(envs[i]), bothBkts: pl.bothBkts, e: namesEnv(envs[i]),
+					opOrgs: []platform.ID{1}, serial: true, collide: collides(envs[i])})
+			}(i)
+		}
+		wg.Wait()
+		surfaceCache = &sync.Map{} // keyed by environment: nothing to share with the next batch
+		for i := lo; i < hi; i++ {
+			recs[i-lo].flush(c)
+			if collides(envs[i]) {
+				c.Extra("bucket_name_environments_with_collision", 1)
+			}
+			if !done[i-lo] {
+				c.Cap(fmt.Sprintf("budget hit in phase N inside bucket-name environment %d of %d (%v)", i, len(envs), envs[i]))
+				return
+			}
+		}
+	}
+	c.Extra("bucket_name_environments_closed", int64(len(envs)))
 }
 
 func TestCheck(t *testing.T) {
 	vlib.Main(t, &vlib.Check{
 		ID: "C43", Level: "model_checking", Workers: 1,
 		Rule: "BFS to closure; state = full content of the service's four kv buckets; ops: create(id∈pool, org∈{1,2}, db∈{db,dbx}, rp∈{autogen,rp1,rp2}, bucket, default flag), " +
-			"update(id, org, rp, default flag), delete(id, org) incl. unknown ids, wrong org and duplicate pairs (create always uses an unused id, any of the pool); fixed environment of 4 buckets (org1: 'db','db/rp1'; org2: 'dbx/autogen','plain') giving virtual mappings. " +
+			"update(id, org, rp, default flag), delete(id, org) incl. unknown ids, wrong org and duplicate pairs (create always uses an unused id, any of the pool); phases A-C: fixed environment of 4 buckets (org1: 'db','db/rp1'; org2: 'dbx/autogen','plain') giving virtual mappings. " +
 			"quick: phase A pool of 2 ids, bucket fixed per id; phase B pool of 1 id plus update/delete aimed at the ids of the virtual mappings 11 ('db') and 21 ('dbx/autogen') with rp∈{autogen,rp1}. " +
 			"thorough: phase A pool of 3 ids, both buckets of the org; phase B pool of 1 id plus virtual ids {11,12,21}; phase C pool of 2 ids plus virtual ids {11,21} (rp∈{autogen,rp1}). Each phase is a BFS to closure. " +
-			"Every transition = replay of the state's shortest history on a fresh real dbrp.Service (inmem kv) plus one op; after each: listing per org, per (org,db), resolution of every (org,db,rp), empty-rp lookup, FindByID " +
-			"are checked against the statement (≤1 bucket per pair, exactly one default per database that has stored mappings, empty-rp lookup returns it, stored mappings = those built by the ops). " +
-			"non-trivial = transitions whose op is applicable in the model or an accepted virtual-id op (distinct by construction); a violation is reported on the transition introducing it",
+			"phase N (bucket-name dimension): org 1 owns 'plain1' plus EVERY ordered selection (creation order = listing order = id order) of 0..k distinct names of an alphabet whose members parse to colliding (db, rp) pairs " +
+			"(quick: {db, db/autogen, db/rp1, dbx, dbx/autogen, db/autogen/x}, k=3, 157 environments; thorough: the same plus db/rp1/x, k=4, 1100 environments); in each environment a BFS to closure over create/update/delete of org 1 " +
+			"(quick: pool of 2 ids for k≤2 and 1 id for k=3, bucket fixed per id; thorough: pool of 2 ids for k≤3 and 1 id for k=4, both 'plain1' and the first enumerated bucket as targets), the initial state being judged too. " +
+			"Every transition = replay of the state's shortest history on a fresh real dbrp.Service (inmem kv) plus one op; after each: listing per org, per (org,db), over all orgs, resolution of every (org,db,rp) incl. the rps the bucket names parse to, empty-rp lookup, FindByID " +
+			"are checked against the statement (every lookup result names ≤1 bucket per (org,db,rp) — of several colliding virtual candidates either may win, never both, and none beside a stored mapping of the pair; ≤1 default per (org,db) in every result; exactly one default per database that has stored mappings; " +
+			"the empty-rp lookup returns it; every returned mapping's bucket exists in its org; stored mappings = those built by the ops). " +
+			"non-trivial = transitions whose op is applicable in the model or an accepted virtual-id op, and in phase N additionally the initial states, only in environments with at least one enumerated bucket name (distinct by construction); a violation is reported on the transition introducing it",
 		Assumptions: []string{
-			"the in-harness BucketService (fixed bucket set) honours the interface; bucket names are static during a history",
+			"the in-harness BucketService (bucket set fixed per environment, listed in creation order) honours the interface; bucket names are static during a history",
 			"the four kv buckets are created directly instead of running kv migrations 0004/0012",
 			"a database whose only mappings are virtual ones derived from 'db/rp' bucket names has no default by construction; the 'exactly one default' clause is applied to databases with at least one stored mapping (at most one default is required everywhere)",
-			"after an accepted update/delete aimed at a virtual mapping's id the set of stored mappings is not predicted by the model; only the statement's invariants on the observable surface are checked from then on",
+			"after an accepted update/delete aimed at a virtual mapping's id the set of stored mappings is not predicted by the model; only the statement's invariants on the observable surface are checked from then on (and the listing over all orgs is not issued)",
+			"which of several bucket names parsing to one (db, rp) pair provides the virtual mapping is not prescribed (either, in every lookup, but the empty-rp lookup must not return a mapping whose own (db, rp) pair resolves to another bucket); which virtual mappings the listing over all orgs shows is not prescribed",
+			"a bucket name is split at its first '/', as the statement's 'virtual mappings derived from bucket names' are documented (db/rp); names with several slashes are part of the alphabet",
 		},
 		QuickBudgetS: 100, ThoroughBudgetS: 840,
 		Run: func(c *vlib.Ctx) {
@@ -981,25 +1468,41 @@ func TestCheck(t *testing.T) {
 				{name: "A", slots: 2},
 				{name: "B", slots: 1, vIDs: []uint64{11, 21}, vRPs: []string{"autogen", "rp1"}},
 			}
+			pl := namesPlan{alpha: nameAlphabetQuick, maxNames: 3, slots: func(n []string) int {
+				if len(n) <= 2 {
+					return 2
+				}
+				return 1
+			}}
 			if c.Thorough() {
 				phases = []bounds{
 					{name: "A", slots: 3, bothBkts: true},
 					{name: "B", slots: 1, vIDs: []uint64{11, 12, 21}, vRPs: []string{"autogen", "rp1"}},
 					{name: "C", slots: 2, vIDs: []uint64{11, 21}, vRPs: []string{"autogen", "rp1"}},
 				}
+				pl = namesPlan{alpha: nameAlphabetThorough, maxNames: 4, bothBkts: true, slots: func(n []string) int {
+					if len(n) <= 3 {
+						return 2
+					}
+					return 1
+				}}
 			}
+			// the cheap, wide dimension first; then the deep histories on the fixed environment
+			phaseN(c, pl)
 			for _, b := range phases {
-				bfs(c, b)
+				if !bfs(c, b) {
+					return
+				}
 			}
 		},
 		Replay: func(c *vlib.Ctx, raw json.RawMessage) (bool, string) {
 			var cs Case
-			if err := json.Unmarshal(raw, &cs); err != nil || len(cs.History) == 0 {
+			if err := json.Unmarshal(raw, &cs); err != nil || (len(cs.History) == 0 && !cs.NamesEnv) {
 				return false, fmt.Sprint("bad case: ", err)
 			}
 			useCache = false
 			v := runCase1(cs, true)
-			return len(v.sigs) > 0, fmt.Sprintf("history {%s}: last op returned %s; surface: %s; introduced: %v", histString(cs.History), v.res, v.render, v.sigs)
+			return len(v.sigs) > 0, fmt.Sprintf("%s: last op returned %s; surface: %s; introduced: %v", cs, v.res, v.render, v.sigs)
 		},
 	})
 }
